@@ -448,29 +448,8 @@ REG.add(Contract("RuleMatcher._find_rule_violations", module=M_RM, kind="method"
 
 
 # ---------------------------------------------------------------- conv(g, F): the converted filter set as ONE term
-from pyvc.vals import Graph as _Graph, sort_of as _sort_of
-_FSET = _z3.ArraySort(_sort_of(("data", "Filter")), _z3.BoolSort())
-_f_conv = _z3.Function("conv", _Graph, _FSET, _FSET)
-
-
-@REG.specfun("conv")
-def _conv(eng, st, g, F):
-    """{f | conv_member(g, F, f)} as a function symbol with its definitional axiom (conservative extension)."""
-    F = eng.reg.as_membership(eng, F)
-    if "conv" not in eng.axioms_used:
-        saved_bound, saved_spec, saved_q = dict(eng.bound), eng.spec, getattr(eng, "qdepth", 0)
-        eng.spec, eng.qdepth = True, 80
-        try:
-            gv, Fv, fv = eng.bvar("ax!g", "Graph"), eng.bvar("ax!F", "Bag[Filter]"), eng.bvar("ax!f", "Filter")
-            eng.bound = dict(g=gv, F=Fv, f=fv)
-            eng.qdepth = 81
-            from pyvc.state import State as _S
-            body = eng.truth(eng.ev1(eng.reg.parse_spec("conv_member(g, F, f)"), _S()))
-            app = _z3.Select(_f_conv(gv.x, Fv.x), fv.x)
-            eng.axioms_used["conv"] = _z3.ForAll([gv.x, Fv.x, fv.x], app == body, patterns=[app])
-        finally:
-            eng.bound, eng.spec, eng.qdepth = saved_bound, saved_spec, saved_q
-    return _V(("bag", ("data", "Filter")), _f_conv(g.x, F.x))
+from .speclib import set_function
+set_function("conv", dict(g="Graph", F="Bag[Filter]"), "f", "Filter", "conv_member(g, F, f)")
 
 
 # the converted requirement as a function of (graph, requirement as given by the user)
